@@ -136,6 +136,31 @@ func c17Expected(c *c17E2ECase, ms []*labels.Matcher) []c17Want {
 	return res
 }
 
+// c17IdxSel: would the label index select the series — every matcher needs a row (the label is present) whose
+// value satisfies it, regular expressions read anchored (Prometheus) or as a search (ClickHouse match on the raw value)
+func c17IdxSel(s c17E2ESeries, ms []*labels.Matcher, anchored bool) bool {
+	for _, m := range ms {
+		found := false
+		for _, kv := range s.Labels {
+			if kv[0] != m.Name {
+				continue
+			}
+			ok := m.Matches(kv[1])
+			if !anchored && (m.Type == labels.MatchRegexp || m.Type == labels.MatchNotRegexp) {
+				re, err := regexp.Compile(m.Value)
+				ok = (err == nil && re.MatchString(kv[1])) == (m.Type == labels.MatchRegexp)
+			}
+			if ok {
+				found = true
+			}
+		}
+		if !found {
+			return false
+		}
+	}
+	return true
+}
+
 func c17RunE2E(r *h.Result, sc *fakes.Script, q storage.Querier, c *c17E2ECase) error {
 	db := c17BuildDB(c)
 	var execErr error
@@ -204,13 +229,17 @@ func c17RunE2E(r *h.Result, sc *fakes.Script, q storage.Querier, c *c17E2ECase) 
 					onlyAtStart = false
 				}
 			}
+			absent = absent && !c17IdxSel(s, ms, true)
+			unanchored := c17IdxSel(s, ms, true) && !c17IdxSel(s, ms, false)
 			switch {
 			case absent:
 				r.Violate("C17/select-matcher-on-absent-label", fmt.Sprintf("series %v satisfies every matcher (a matcher accepts the empty value of a label the series does not have) but is not selected", w.Labels), *c)
-			case len(ms) > 8:
-				r.Violate("C17/select-more-than-8-matchers", fmt.Sprintf("series %v satisfies all %d matchers but is not selected", w.Labels, len(ms)), *c)
+			case unanchored:
+				r.Violate("C17/select-regex-not-anchored", fmt.Sprintf("series %v satisfies every matcher but is not selected: a regular-expression matcher is applied as a search, not to the whole label value", w.Labels), *c)
 			case onlyAtStart:
 				r.Violate("C17/select-sample-at-start-excluded", fmt.Sprintf("series %v has its only sample of the window exactly at start=%d and is not returned", w.Labels, c.Start), *c)
+			case len(ms) > 8:
+				r.Violate("C17/select-more-than-8-matchers", fmt.Sprintf("series %v satisfies all %d matchers but is not selected", w.Labels, len(ms)), *c)
 			default:
 				r.Violate("C17/select-series-missing", fmt.Sprintf("series %v satisfies every matcher but is not selected", w.Labels), *c)
 			}
@@ -237,23 +266,7 @@ func c17RunE2E(r *h.Result, sc *fakes.Script, q storage.Querier, c *c17E2ECase) 
 		for _, kv := range s.Labels {
 			ls = append(ls, labels.Label{Name: kv[0], Value: kv[1]})
 		}
-		// would it match if regular expressions were not anchored?
-		unanch := true
-		for _, m := range ms {
-			v := ls.Get(m.Name)
-			switch m.Type {
-			case labels.MatchRegexp, labels.MatchNotRegexp:
-				re, err := regexp.Compile(m.Value)
-				hit := err == nil && re.MatchString(v)
-				if hit != (m.Type == labels.MatchRegexp) {
-					unanch = false
-				}
-			default:
-				if !m.Matches(v) {
-					unanch = false
-				}
-			}
-		}
+		unanch := c17IdxSel(s, ms, false) && !c17IdxSel(s, ms, true)
 		switch {
 		case s.Type != 2 && s.Type != 0:
 			r.Violate("C17/select-foreign-type", fmt.Sprintf("series %v of type %d is selected", g.Labels, s.Type), *c)
